@@ -10,20 +10,27 @@ import (
 	"strings"
 )
 
-// TypePriority calculates the supplied type's priority used for sorting
+// TypePriority calculates the supplied type's priority used for sorting. Records too short to carry their
+// order tag sort last (UnwrapDnsResponse skips them).
 func TypePriority(rr dns.RR) uint32 {
 	switch v := rr.(type) {
 	case *dns.NULL:
 		// first two bytes represent the order
-		return 10000 + uint32(binary.LittleEndian.Uint16([]byte(v.Data[0:2])))
+		if len(v.Data) >= 2 {
+			return 10000 + uint32(binary.LittleEndian.Uint16([]byte(v.Data[0:2])))
+		}
 	case *dns.PrivateRR:
 		// first two bytes represent the order
-		return 20000 + uint32(binary.LittleEndian.Uint16([]byte(v.Data.String()[0:2])))
+		if d := v.Data.String(); len(d) >= 2 {
+			return 20000 + uint32(binary.LittleEndian.Uint16([]byte(d[0:2])))
+		}
 	case *dns.TXT:
 		// First two characters represent the byte order
-		i1 := enc.Base32CharToInt(v.Txt[0][0])
-		i2 := enc.Base32CharToInt(v.Txt[0][1])
-		return 30000 + uint32(i1+i2*32)
+		if len(v.Txt) > 0 && len(v.Txt[0]) >= 2 {
+			i1 := enc.Base32CharToInt(v.Txt[0][0])
+			i2 := enc.Base32CharToInt(v.Txt[0][1])
+			return 30000 + uint32(i1+i2*32)
+		}
 	case *dns.MX:
 		// Use Preference for order
 		return 40000 + uint32(v.Preference)
@@ -32,15 +39,21 @@ func TypePriority(rr dns.RR) uint32 {
 		return 50000 + uint32(v.Priority)
 	case *dns.CNAME:
 		// First two characters represent the order
-		i1 := enc.Base32CharToInt(v.Target[0])
-		i2 := enc.Base32CharToInt(v.Target[1])
-		return 60000 + uint32(i1+i2*32)
+		if len(v.Target) >= 2 {
+			i1 := enc.Base32CharToInt(v.Target[0])
+			i2 := enc.Base32CharToInt(v.Target[1])
+			return 60000 + uint32(i1+i2*32)
+		}
 	case *dns.AAAA:
 		// First two bytes represent the order
-		return 70000 + uint32(binary.LittleEndian.Uint16(v.AAAA[0:2]))
+		if len(v.AAAA) >= 2 {
+			return 70000 + uint32(binary.LittleEndian.Uint16(v.AAAA[0:2]))
+		}
 	case *dns.A:
 		// First byte represent the order
-		return 80000 + uint32(v.A[0])
+		if len(v.A) >= 1 {
+			return 80000 + uint32(v.A[0])
+		}
 	}
 
 	// Unknown response type
@@ -398,37 +411,61 @@ func UnwrapDnsResponse(q *dns.Msg, domain string) []byte {
 		return TypePriority(answers[i]) < TypePriority(answers[j])
 	})
 
+	// stripDomain removes the trailing ".<domain>." from a target; ok is false if the name is too short
+	stripDomain := func(data string) (string, bool) {
+		if len(data) < len(domain)+2 {
+			return "", false
+		}
+		return data[0 : len(data)-len(domain)-2], true
+	}
+
 	for _, rr := range answers {
+		// Records too short to carry their order tag (or names not under the domain) carry no payload
 		switch v := rr.(type) {
 		case *dns.NULL:
 			// Remove first two bytes
-			resp = append(resp, []byte(v.Data[2:])...)
+			if len(v.Data) >= 2 {
+				resp = append(resp, []byte(v.Data[2:])...)
+			}
 		case *dns.PrivateRR:
 			// Remove first two bytes
-			resp = append(resp, []byte(v.Data.String()[2:])...)
+			if d := v.Data.String(); len(d) >= 2 {
+				resp = append(resp, []byte(d[2:])...)
+			}
 		case *dns.TXT:
-			resp = append(resp, []byte(strings.Join(v.Txt, "")[2:])...)
+			if d := strings.Join(v.Txt, ""); len(d) >= 2 {
+				resp = append(resp, []byte(d[2:])...)
+			}
 		case *dns.MX:
-			data := v.Mx                             // Nothing to remove, Preference takes care of it
-			data = data[0 : len(data)-len(domain)-2] // remove domain
-			data = Undotify(data)                    // Remove dots
-			resp = append(resp, data...)
+			// Nothing to remove, Preference takes care of it
+			if data, ok := stripDomain(v.Mx); ok {
+				data = Undotify(data) // Remove dots
+				resp = append(resp, data...)
+			}
 		case *dns.SRV:
-			data := v.Target                         // Nothing to remove, Priority takes care of it
-			data = data[0 : len(data)-len(domain)-2] // remove domain
-			data = Undotify(data)                    // Remove dots
-			resp = append(resp, data...)
+			// Nothing to remove, Priority takes care of it
+			if data, ok := stripDomain(v.Target); ok {
+				data = Undotify(data) // Remove dots
+				resp = append(resp, data...)
+			}
 		case *dns.CNAME:
-			data := v.Target[2:]                     // Remove first two characters
-			data = data[0 : len(data)-len(domain)-2] // remove domain
-			data = Undotify(data)                    // Remove dots
-			resp = append(resp, data...)
+			if len(v.Target) >= 2 {
+				// Remove first two characters
+				if data, ok := stripDomain(v.Target[2:]); ok {
+					data = Undotify(data) // Remove dots
+					resp = append(resp, data...)
+				}
+			}
 		case *dns.AAAA:
 			// Remove first two bytes
-			resp = append(resp, v.AAAA[2:]...)
+			if len(v.AAAA) >= 2 {
+				resp = append(resp, v.AAAA[2:]...)
+			}
 		case *dns.A:
 			// Remove first byte
-			resp = append(resp, v.A[1:]...)
+			if len(v.A) >= 1 {
+				resp = append(resp, v.A[1:]...)
+			}
 		}
 	}
 
